@@ -67,6 +67,11 @@ chk("C07", "exploration", "E2-input-enumerator",
     "All first keyframes of <= 4 (thorough 5) NAL units over a parameter-set alphabet x framings; all AV1 sequence headers over the branch product of spec 5.5 written by an independent bit writer x OBU layouts; all VP9 headers of the accepted form; all audio (codec, rate, channels) combinations; all fragmented builder configurations. The config record read back from the finished file / init segment must equal what the generator wrote.",
     READER + " The AV1 bit writer follows AV1 spec 5.5 and is the source of truth for expected av1C fields.", "DESIGN.md §4 C07")
 
+chk("C12", "exploration", "E2-input-enumerator",
+    "bounded exhaustive enumeration of byte strings, bit strings, argument tuples and lifecycle states for every public entry point, under catch_unwind with overflow checks on",
+    "Every public function of codec::*, validation, api and fragmented is called on exhaustively enumerated small inputs (all short byte strings, all strings over per-parser boundary alphabets, all AV1 header payloads of a fixed bit length, one- and two-deviation neighbourhoods of valid exemplars) and, for the stateful types, with every argument tuple over boundary alphabets in every lifecycle state; creation times up to u64::MAX run in child processes with a time limit. The build has overflow checks and debug assertions enabled; any unwind or stall is a violation.",
+    "Trusted base: catch_unwind observes every panic (panic=unwind profile); allocation failure is out of scope. Functions documented to panic (assert_invariant!(false), contract_test) are exempt.", "DESIGN.md §4 C12")
+
 NOT_YET = {
 }
 
